@@ -59,7 +59,7 @@ theorem checkedInsertAfter_gen {g : Forest} (hi : g.Inv) {ref c : Nat} {cv sv : 
     have hiv : innerValue (cutPath c (init ++ [fr])) = some fr.v := by
       simp [cutPath, innerValue_map_mapKids]
     apply hi.place hi' hperm h1 h2 h3 h4 hroots
-    · simp only [fi_handlesList_append, handlesList_cons, handlesList_nil, List.append_nil, List.append_assoc]
+    · simp only [fi_handlesList_append, fi_handlesList_cons, fi_handlesList_nil, List.append_nil, List.append_assoc]
       refine List.Perm.append_left _ (List.Perm.append_left _ ?_)
       exact List.perm_append_comm
     · rw [hiv] at k1 ⊢
@@ -138,7 +138,7 @@ theorem checkedPrepend_gen {g : Forest} (hi : g.Inv) {p c : Nat} {cv : Value}
     obtain ⟨k1, k2⟩ := hi'.kids_at hroots2
     rw [h3] at k1 k2
     apply hi.place hi' hperm h1 h2 h3 h4 hroots2
-    · simp only [List.nil_append, handlesList_cons]
+    · simp only [List.nil_append, fi_handlesList_cons]
       exact List.perm_append_comm
     · rw [innerValue_snoc] at k1 ⊢
       refine (kidsOK_iff _ _ _).mpr ?_
